@@ -125,6 +125,68 @@ theorem adjust_emitted : ∀ (ix : List PIdx) (ds : Shape) (gs : List GIdx),
             List.cons_append, List.nil_append, adjust, List.length_cons, Nat.add_sub_cancel]
           rw [ih, hrt]
 
+/-! ## an index of full slices only is the array
+
+  `denoteStep` lets such a node denote its child (the target emits no statement for it); this is
+  the justification: indexing with those slices gives the same shape and the same element at
+  every index of the right length. -/
+
+theorem cpyLen_full (d : Nat) : (cpyLen ⟨0, d, 1⟩).toNat = d := by
+  unfold cpyLen
+  simp only
+  by_cases h : (0 : Int) < d
+  · simp only [show ¬ ((1 : Int) < 0) by omega, if_false, h, if_true]
+    simp
+  · simp only [show ¬ ((1 : Int) < 0) by omega, if_false, h, if_false]
+    omega
+
+theorem gIndex_trivial : ∀ (ix : List PIdx) (ds : Shape) (gs : List GIdx),
+    basicNorm ix ds = true → toGs ix = some gs → emittedIdxCount ix ds = 0 →
+    gShape ds gs = ds ∧ ∀ i : Idx, i.length = ds.length → gSrc ds gs i = i
+  | [], [], gs, _, hg, _ => by
+    simp only [toGs, Option.some.injEq] at hg
+    subst hg
+    refine ⟨rfl, fun i hi => ?_⟩
+    cases i with
+    | nil => rfl
+    | cons _ _ => simp at hi
+  | [], _ :: _, _, hn, _, _ => by simp [basicNorm] at hn
+  | .arr _ :: _, _, _, hn, _, _ => by simp [basicNorm] at hn
+  | .int k :: r, [], _, hn, _, _ => by simp [basicNorm] at hn
+  | .slice s :: r, [], _, hn, _, _ => by simp [basicNorm] at hn
+  | .int k :: r, d :: ds, gs, _, _, hk => by
+    simp only [emittedIdxCount, idxTrivial] at hk
+    split at hk <;> simp at hk
+  | .slice s :: r, d :: ds, gs, hn, hg, hk => by
+    simp only [basicNorm, Bool.and_eq_true] at hn
+    simp only [toGs, PIdx.toG] at hg
+    cases hr : toGs r with
+    | none => simp [hr] at hg
+    | some gr =>
+      simp only [hr, Option.some.injEq] at hg
+      subst hg
+      simp only [emittedIdxCount] at hk
+      by_cases hk' : emittedIdxCount r ds > 0
+      · rw [if_pos hk'] at hk; omega
+      · rw [if_neg hk'] at hk
+        by_cases ht : idxTrivial (.slice s) d = true
+        · have hs : s = ⟨0, d, 1⟩ := by
+            simp only [idxTrivial, sliceTrivial, Bool.and_eq_true, beq_iff_eq] at ht
+            obtain ⟨a, b, c⟩ := s
+            simp only at ht
+            obtain ⟨⟨rfl, rfl⟩, rfl⟩ := ht
+            rfl
+          subst hs
+          obtain ⟨h1, h2⟩ := gIndex_trivial r ds gr hn.2 hr (by omega)
+          refine ⟨by simp only [gShape, cpyLen_full, h1], fun i hi => ?_⟩
+          cases i with
+          | nil => simp at hi
+          | cons j i =>
+            simp only [List.length_cons, Nat.add_right_cancel_iff] at hi
+            simp only [gSrc, h2 i hi]
+            simp
+        · rw [if_neg ht] at hk; omega
+
 /-! ## what the emitted entries evaluate to -/
 
 theorem basicNorm_toGs : ∀ (ix : List PIdx) (ds : Shape), basicNorm ix ds = true →
